@@ -97,6 +97,34 @@ pub trait GenericLayoutTrait {
     fn get_num_columns_second(public_input: &PublicInput) -> Option<usize>;
 }
 
+// Checks that the main page starts with the `program_len` program cells at consecutive
+// addresses from `initial_pc` and ends with the `output_len` output cells at consecutive
+// addresses from `output_start`, so that hashing them by position is hashing them by address.
+pub fn check_main_page_layout(
+    public_input: &PublicInput,
+    initial_pc: Felt,
+    program_len: usize,
+    output_start: Felt,
+    output_len: usize,
+) -> Result<(), PublicInputError> {
+    let page_len = public_input.main_page.len();
+    let needed = program_len.checked_add(output_len).ok_or(PublicInputError::MainPageInvalid)?;
+    if needed > page_len {
+        return Err(PublicInputError::MainPageInvalid);
+    }
+    for (i, cell) in public_input.main_page.iter().take(program_len).enumerate() {
+        if cell.address != initial_pc + Felt::from(i) {
+            return Err(PublicInputError::MainPageInvalid);
+        }
+    }
+    for (i, cell) in public_input.main_page.iter().skip(page_len - output_len).enumerate() {
+        if cell.address != output_start + Felt::from(i) {
+            return Err(PublicInputError::MainPageInvalid);
+        }
+    }
+    Ok(())
+}
+
 pub fn safe_div(value: Felt, divisor: Felt) -> Result<Felt, FeltIsZeroError> {
     Ok(value.floor_div(&NonZeroFelt::try_from(divisor)?))
 }
@@ -177,6 +205,9 @@ pub enum PublicInputError {
 
     #[error("dynamic params check failed")]
     CheckAsserts(#[from] CheckAssertsError),
+
+    #[error("main page does not hold the program and output cells at their addresses")]
+    MainPageInvalid,
 }
 
 #[cfg(feature = "std")]
@@ -275,6 +306,9 @@ pub enum PublicInputError {
 
     #[error("dynamic params check failed")]
     CheckAsserts(#[from] CheckAssertsError),
+
+    #[error("main page does not hold the program and output cells at their addresses")]
+    MainPageInvalid,
 }
 
 #[cfg(not(feature = "std"))]
